@@ -18,6 +18,16 @@ import Garnish.Lemmas.RefParse
 namespace Garnish.Props.C02
 open Garnish Garnish.Gen Garnish.Model.Parser Garnish.Spec
 
+/-! ### bridge: the table the code has now (regenerated) = the language`s table (committed) -/
+theorem C02_bridge_priority : ∀ d : Definition, Garnish.Gen.priority d = Spec.Lang.priority d := by
+  intro d; cases d <;> rfl
+theorem C02_bridge_definition : ∀ t : TokenType, Garnish.Gen.getDefinition t = Spec.Lang.getDefinition t := by
+  intro t; cases t <;> rfl
+theorem C02_bridge_table : Table.gen = Table.spec := by
+  have h1 : Garnish.Gen.getDefinition = Spec.Lang.getDefinition := funext C02_bridge_definition
+  have h2 : Garnish.Gen.priority = Spec.Lang.priority := funext C02_bridge_priority
+  simp [Table.gen, Table.spec, h1, h2]
+
 /-- in the generated table the right-to-left flag (`Pair` only) agrees with the syntactic class of every token type -/
 theorem C02_gen_rtlAgrees : RtlAgrees Table.gen Table.gen.rtl where
   tokens := by intro tt; cases tt <;> rfl
@@ -61,32 +71,6 @@ def inorderSig (tbl : Table) : RTree → List Nat
 /-- full statement (checked by the suites, not proved): the in-order walk of the reference tree is the significant tokens -/
 def C02_refParse_inorder : Prop :=
   ∀ toks t, refParse Table.gen toks = .ok t → inorderSig Table.gen t = significant toks
-
-/-- in-order items of the atoms + binary operators fragment: an atom is a value or a closed bracket (with its content) -/
-inductive Item where
-  | atom (t : RTree)
-  | op (d : Definition) (k : Nat)
-
-def items : RTree → List Item
-  | .nil => []
-  | .group d k inner => [.atom (.group d k inner)]
-  | .node l d k r => if l.isNil && r.isNil then [.atom (.node l d k r)] else items l ++ .op d k :: items r
-
-/-- atoms and full binary nodes only -/
-def binFrag : RTree → Bool
-  | .nil => false
-  | .group _ _ _ => true
-  | .node l _ _ r => (l.isNil && r.isNil) || (binFrag l && binFrag r)
-
-/-- every operator of the tree has a priority -/
-def allPrio (tbl : Table) : RTree → Bool
-  | .nil => true
-  | .group _ _ _ => true
-  | .node l d _ r => (tbl.prio d).isSome && allPrio tbl l && allPrio tbl r
-
-/-- operators of equal priority group the same way (true for the generated table: `Pair` is alone at its priority) -/
-def Consistent (tbl : Table) (rtlf : Definition → Bool) : Prop :=
-  ∀ d1 d2 p, tbl.prio d1 = some p → tbl.prio d2 = some p → rtlf d1 = rtlf d2
 
 /-- full statement (NOT proved; proof sketch: in a `PrecOK` tree of the fragment priorities do not increase downwards, so
     the root is the rightmost (left-to-right level) resp. leftmost (right-to-left level) operator of maximal priority of
